@@ -21,6 +21,7 @@ for n in names:
         out, rc = p.stdout, p.returncode
     finally:
         subprocess.run(["git", "-C", "/repo", "checkout", "--", "."])
+        subprocess.run([sys.executable, os.path.join(V, "tools", "extract.py")], capture_output=True)   # coq/gen back to the unchanged tree
     viol = [l for l in out.splitlines() if l.startswith("VIOLATION")]
     found = [l for l in viol if not l.endswith("no-failing-input-found")]
     keys = []
